@@ -13,6 +13,7 @@ import shutil
 import warnings
 
 import numpy as np
+from pipefunc import Pipeline
 from pipefunc.map import load_outputs
 
 from .. import boot, crashfs, gen_map, terms
@@ -25,7 +26,7 @@ TECHNIQUE = "exhaustive crash-point enumeration: fork, kill at file-system event
 RULE = ("pipelines of C03's family (the all-None-elements pipeline: fresh start, file_array and dict only) x storage {file_array, dict+persist, shared_memory_dict+persist, mix} x start state {no folder, folder of a previous "
         "complete run (cleanup=True interrupted)} x {sequential, parallel code path through the deferred executor with its default schedule} x EVERY file-system event of the run (mkdir, open-for-write, every write call with torn fractions, close, "
         "rename, unlink, rmdir) as the death point; quick coalesces the ~80 tiny json writes of run_info.json to {first, middle, last}; every (function, call "
-        "index) as raise and as kill point; thorough: all events, fractions {0,1/4,1/2,3/4}, and a second crash at every event of the resumed run. "
+        "index) as raise and as kill point (also with every name in a scope, and with one-axis internal shapes spelled as ints on the PipeFunc / in a fresh map(internal_shapes=) dict); thorough: all events, fractions {0,1/4,1/2,3/4}, and a second crash at every event of the resumed run. "
         "non-trivial = distinct (pipeline, storage, start, event kind, file role) class")
 ASSUMPTIONS = ["crash model = process death: completed write() calls survive, no reordering, no fsync semantics",
                "deterministic execution (sequential, or the deferred executor's default schedule), so the event numbering of the reference run equals that of the crashed run (PYTHONHASHSEED pinned)",
@@ -60,8 +61,25 @@ def do_map(cfg, folder, cleanup, fault=None):
             raise ValueError("injected fault", name, fault["call"])
 
     terms.LOG.clear()
-    p = gen_map.build(spec, hook=hook)
+    variant = cfg.get("variant")
+    if variant == "ishape-int-map":
+        spec = {**spec, "funcs": [{**fn, "ishape_via": "map"} for fn in spec["funcs"]]}
+    if variant == "ishape-int-pipefunc":
+        with contextlib.redirect_stdout(io.StringIO()):
+            p = Pipeline(gen_map.build_funcs(spec, hook=hook, ishape_int=True))
+    else:
+        p = gen_map.build(spec, hook=hook)
     inputs = gen_map.make_inputs(spec, "list")
+    ishapes = gen_map.internal_shapes_arg(spec)
+    if variant == "ishape-int-map" and ishapes:
+        ishapes = {k: (v[0] if len(v) == 1 else v) for k, v in ishapes.items()}  # a FRESH dict per call, ints for one axis
+    pre = ""
+    if variant == "scoped":  # every name gets the prefix "s." (two root inputs of one scope: file names with dots)
+        with contextlib.redirect_stdout(io.StringIO()):
+            p.update_scope("s", inputs="*", outputs="*")
+        pre = "s."
+        inputs = {pre + k: v for k, v in inputs.items()}
+        ishapes = {pre + k: v for k, v in ishapes.items()} if ishapes else ishapes
     par = {}
     if cfg.get("exec") == "deferred":
         # parallel code path with a deterministic schedule: tasks are submitted to the deferred executor and run in
@@ -72,16 +90,16 @@ def do_map(cfg, folder, cleanup, fault=None):
         par = {"parallel": False}
     with contextlib.redirect_stdout(io.StringIO()), warnings.catch_warnings():
         warnings.simplefilter("ignore")
-        r = p.map(dict(inputs), run_folder=folder, internal_shapes=gen_map.internal_shapes_arg(spec),
+        r = p.map(dict(inputs), run_folder=folder, internal_shapes=ishapes,
                   storage=c03.storage_arg(cfg["storage"]), cleanup=cleanup, persist_memory=True, **par)
-    out = {o: terms.T(r[o].output) for f in spec["funcs"] for o in f["outs"]}
+    out = {o: terms.T(r[pre + o].output) for f in spec["funcs"] for o in f["outs"]}
     loaded = {}
     crashfs.Ctl.root = None
     for f in spec["funcs"]:
         for o in f["outs"]:
             try:
                 with contextlib.redirect_stdout(io.StringIO()):
-                    loaded[o] = terms.T(load_outputs(o, run_folder=folder))
+                    loaded[o] = terms.T(load_outputs(pre + o, run_folder=folder))
             except Exception as e:  # noqa: BLE001
                 loaded[o] = f"EXC {type(e).__name__}: {str(e)[:80]}"
     return {"outputs": out, "loaded": loaded, "log": [list(x) for x in terms.LOG]}
@@ -289,6 +307,12 @@ def configs(tier):
         for st in storage_opts(spec, tier):
             for start in ("fresh", "previous-run"):
                 out.append({"pipe": pipe, "storage": st, "start": start})
+        # variants of how the same run is spelled (user-function faults only; crash points are enumerated on the plain form)
+        if pipe == "map2d-partial-full":
+            out.append({"pipe": pipe, "storage": "file_array", "start": "fresh", "variant": "scoped", "faults_only": True})
+        if pipe in ("generator-outer", "internal-first-reduce"):
+            for v in ("ishape-int-pipefunc", "ishape-int-map"):
+                out.append({"pipe": pipe, "storage": "file_array", "start": "fresh", "variant": v, "faults_only": True})
         # the parallel code path (deferred executor, deterministic default schedule)
         for st in (("file_array", "dict") if tier == "quick" else storage_opts(spec, tier)):
             out.append({"pipe": pipe, "storage": st, "start": "fresh", "exec": "deferred"})
@@ -299,12 +323,12 @@ def plan(tier, seed):
     units = []
     for cfg in configs(tier):
         nch = 6 if tier == "quick" else 12
-        for c in range(nch):
+        for c in range(nch if not cfg.get("faults_only") else 0):
             units.append(("single-crash-every-event", ("crash", cfg, tier, c, nch)))
         units.append(("user-function-faults", ("fault", cfg)))
     if tier == "thorough":
         for cfg in configs(tier):
-            if cfg["start"] == "fresh" and cfg["pipe"] in ("two-maps-reduce", "tuple-zip", "generator-outer"):
+            if cfg["start"] == "fresh" and not cfg.get("faults_only") and cfg["pipe"] in ("two-maps-reduce", "tuple-zip", "generator-outer"):
                 for c in range(24):
                     units.append(("depth-2-crash-sequences", ("depth2", cfg, c, 24)))
     by = {}
